@@ -319,3 +319,223 @@ Proof.
   { unfold coeff. rewrite E, lcoef_cons, Z.eqb_refl, lcoef_notin by assumption. lia. }
   exists k. split; [lia|]. intros rho. rewrite eval_upd, Hk. nia.
 Qed.
+
+(* ---------- _substitute_known_variables (the code since commit 0fa6448) ---------- *)
+Definition valof (v : value) (rho : var -> Z) : Z :=
+  match v with VPoly p => eval p rho | VVar y => rho y end.
+Definition valof_end (e : endp) (rho : var -> Z) : Z :=
+  match e with EPoly p => eval p rho | EVar y => rho y end.
+
+(* the assignment gives every settled variable the value it is settled to *)
+Definition wagrees (w : world) (rho : var -> Z) : Prop :=
+  forall x v, lookupv (settled w) x = Some v -> valof v rho = rho x.
+
+Lemma follow_value fuel w rho : wagrees w rho -> forall exp v b e,
+  follow fuel w exp v = (b, e) -> valof_end e rho = valof v rho.
+Proof.
+  intros Hw. induction fuel as [|f IH]; intros exp v b e H; destruct v as [p|y]; simpl in H.
+  - inversion H; reflexivity.
+  - destruct (memv y (awaiting w) || memv y exp); inversion H; reflexivity.
+  - inversion H; reflexivity.
+  - destruct (memv y (awaiting w) || memv y exp); [inversion H; reflexivity|].
+    destruct (lookupv (settled w) y) as [v'|] eqn:E; [|inversion H; reflexivity].
+    rewrite (IH _ _ _ _ H). apply (Hw y v' E).
+Qed.
+
+Lemma estimate_end_value w rho e : wagrees w rho -> valof_end (estimate_end w e) rho = valof_end e rho.
+Proof.
+  intros Hw. destruct e as [y|p]; simpl; [|reflexivity].
+  destruct (lookupv (settled w) y) as [[q|z]|] eqn:E; simpl; try reflexivity; apply (Hw y _ E).
+Qed.
+
+Lemma expand_value fuel w rho : wagrees w rho -> forall exp k c ts c0 nr,
+  expand fuel w exp k c = (ts, c0, nr) -> lsum ts rho + c0 = c * rho k.
+Proof.
+  intros Hw. induction fuel as [|f IH]; intros exp k c ts c0 nr H; simpl in H.
+  - destruct (memv k exp); inversion H; subst; rewrite lsum_cons, lsum_nil; lia.
+  - destruct (memv k exp); [inversion H; subst; rewrite lsum_cons, lsum_nil; lia|].
+    destruct (match try_wait w k with None => (false, EVar k) | Some v => follow f w exp v end) as [computed e] eqn:Ef.
+    assert (He : valof_end e rho = rho k).
+    { unfold try_wait in Ef. destruct (memv k (awaiting w)); [inversion Ef; reflexivity|].
+      destruct (lookupv (settled w) k) as [v|] eqn:El; [|inversion Ef; reflexivity].
+      rewrite (follow_value f w rho Hw _ _ _ _ Ef). apply (Hw k v El). }
+    pose proof (estimate_end_value w rho e Hw) as Hest. rewrite He in Hest.
+    destruct (estimate_end w e) as [z|p]; simpl in Hest.
+    + inversion H; subst. rewrite lsum_cons, lsum_nil. lia.
+    + set (go := fix go (l : list (var * Z)) : list (var * Z) * Z * list var :=
+               match l with
+               | [] => ([], 0, [])
+               | (k1, v1) :: r =>
+                   let '(t1, c1, n1) := expand f w (k :: exp) k1 (v1 * c) in
+                   let '(t2, c2, n2) := go r in
+                   (t1 ++ t2, c1 + c2, n1 ++ n2)
+               end) in *.
+      assert (G : forall l ts' c' n', go l = (ts', c', n') -> lsum ts' rho + c' = c * lsum l rho).
+      { induction l as [|[k1 v1] r IHl]; intros ts' c' n' Hg; simpl in Hg.
+        - inversion Hg; subst. rewrite !lsum_nil. lia.
+        - destruct (expand f w (k :: exp) k1 (v1 * c)) as [[t1 c1] n1] eqn:E1.
+          destruct (go r) as [[t2 c2] n2] eqn:E2. inversion Hg; subst.
+          rewrite lsum_app, lsum_cons. specialize (IH _ _ _ _ _ _ E1). specialize (IHl _ _ _ eq_refl). nia. }
+      destruct (go (coeffs p)) as [[ts' c'] n'] eqn:Eg. inversion H; subst.
+      specialize (G _ _ _ _ Eg). unfold eval in Hest. nia.
+Qed.
+
+Lemma subst_terms_value w rho : wagrees w rho -> forall l ts c0 nr,
+  subst_terms w l = (ts, c0, nr) -> lsum ts rho + c0 = lsum l rho.
+Proof.
+  intros Hw. induction l as [|[k1 v1] r IHl]; intros ts c0 nr H; cbn [subst_terms] in H.
+  - inversion H; subst. rewrite !lsum_nil. lia.
+  - destruct (expand sub_fuel w [] k1 v1) as [[t1 c1] n1] eqn:E1.
+    destruct (subst_terms w r) as [[t2 c2] n2] eqn:E2. inversion H; subst.
+    rewrite lsum_app, lsum_cons. pose proof (expand_value _ w rho Hw _ _ _ _ _ _ E1).
+    specialize (IHl _ _ _ eq_refl). lia.
+Qed.
+
+(* substitution never changes the value of the polynomial *)
+Theorem substitute_sound w rho p : wagrees w rho -> eval (fst (substitute w p)) rho = eval p rho.
+Proof.
+  intros Hw. unfold substitute.
+  destruct (subst_terms w (coeffs p)) as [[ts c0] nr] eqn:Eg. simpl. rewrite eval_mk.
+  pose proof (subst_terms_value w rho Hw _ _ _ _ Eg). unfold eval. lia.
+Qed.
+
+Theorem wf_substitute w p : wf (fst (substitute w p)).
+Proof.
+  unfold substitute. destruct (subst_terms w (coeffs p)) as [[ts c0] nr]. apply wf_mk.
+Qed.
+
+(* ---------- completeness of the substitution: nothing that is known is left in the result ----------
+   Hypotheses: no variable is being computed (awaiting = []) and "is defined through" is well founded
+   (a rank that decreases from a settled variable to everything its value mentions).  Then every
+   variable of the substituted polynomial is NOT settled: a quantity that is known, or that is denoted
+   by another variable, never survives, so the same quantity is never denoted by two variables. *)
+Section Complete.
+Variable w : world.
+Variable rk : var -> nat.
+Hypothesis no_awaiting : awaiting w = [].
+Hypothesis rk_var : forall x y, lookupv (settled w) x = Some (VVar y) -> (rk y < rk x)%nat.
+Hypothesis rk_poly : forall x p y, lookupv (settled w) x = Some (VPoly p) -> In y (vars p) -> (rk y < rk x)%nat.
+
+Definition unsettled (z : var) : Prop := lookupv (settled w) z = None.
+
+Lemma memv_In x l : memv x l = true -> In x l.
+Proof.
+  unfold memv. rewrite existsb_exists. intros [y [Hy E]]. apply Z.eqb_eq in E. subst. assumption.
+Qed.
+
+Lemma memv_high x exp n : (rk x < n)%nat -> (forall e, In e exp -> (n <= rk e)%nat) -> memv x exp = false.
+Proof.
+  intros Hx He. destruct (memv x exp) eqn:E; [|reflexivity]. apply memv_In in E. specialize (He x E). lia.
+Qed.
+
+Definition vrank_ok (n : nat) (v : value) : Prop :=
+  match v with VVar y => (rk y < n)%nat | VPoly p => forall z, In z (vars p) -> (rk z < n)%nat end.
+
+Lemma follow_complete : forall f n exp v b e,
+  (n <= f)%nat -> vrank_ok n v -> (forall x, In x exp -> (n <= rk x)%nat) ->
+  follow f w exp v = (b, e) ->
+  match e with
+  | EPoly p => forall z, In z (vars p) -> (rk z < n)%nat
+  | EVar y => (rk y < n)%nat /\ unsettled y
+  end.
+Proof.
+  induction f as [|f IH]; intros n exp v b e Hf Hv Hexp H; destruct v as [p|y]; simpl in H, Hv.
+  - inversion H; subst. exact Hv.
+  - lia.
+  - inversion H; subst. exact Hv.
+  - rewrite no_awaiting in H. simpl in H. rewrite (memv_high y exp n Hv Hexp) in H.
+    destruct (lookupv (settled w) y) as [v'|] eqn:E.
+    + assert (Hr : vrank_ok (rk y) v').
+      { destruct v' as [q|z]; simpl; [intros z Hz; exact (rk_poly y q z E Hz)|exact (rk_var y z E)]. }
+      assert (Hexp' : forall x, In x (y :: exp) -> (rk y <= rk x)%nat).
+      { intros x [Hx|Hx]; [subst; lia|specialize (Hexp x Hx); lia]. }
+      specialize (IH (rk y) (y :: exp) v' b e ltac:(lia) Hr Hexp' H).
+      destruct e as [y'|q].
+      * destruct IH; split; [lia|assumption].
+      * intros z Hz. specialize (IH z Hz). lia.
+    + inversion H; subst. split; assumption.
+Qed.
+
+Lemma expand_complete : forall f exp k c ts c0 nr,
+  (rk k < f)%nat -> (forall x, In x exp -> (rk k < rk x)%nat) ->
+  expand f w exp k c = (ts, c0, nr) ->
+  forall z cz, In (z, cz) ts -> unsettled z.
+Proof.
+  induction f as [|f IH]; intros exp k c ts c0 nr Hf Hexp H z cz Hin; [lia|].
+  simpl in H.
+  assert (Hm : memv k exp = false).
+  { destruct (memv k exp) eqn:E; [|reflexivity]. apply memv_In in E. specialize (Hexp k E). lia. }
+  rewrite Hm in H. unfold try_wait in H. rewrite no_awaiting in H. simpl in H.
+  destruct (lookupv (settled w) k) as [v|] eqn:Ek.
+  - destruct (follow f w exp v) as [computed e] eqn:Ef.
+    assert (Hr : vrank_ok (rk k) v).
+    { destruct v as [q|y]; simpl; [intros y Hy; exact (rk_poly k q y Ek Hy)|exact (rk_var k y Ek)]. }
+    assert (Hexp' : forall x, In x exp -> (rk k <= rk x)%nat) by (intros x Hx; specialize (Hexp x Hx); lia).
+    pose proof (follow_complete f (rk k) exp v computed e ltac:(lia) Hr Hexp' Ef) as Hfc.
+    destruct e as [y|p]; simpl in H.
+    + destruct Hfc as [_ Hu]. unfold unsettled in Hu. rewrite Hu in H.
+      inversion H; subst. destruct Hin as [Hin|[]]. inversion Hin; subst. exact Hu.
+    + set (go := fix go (l : list (var * Z)) : list (var * Z) * Z * list var :=
+               match l with
+               | [] => ([], 0, [])
+               | (k1, v1) :: r =>
+                   let '(t1, c1, n1) := expand f w (k :: exp) k1 (v1 * c) in
+                   let '(t2, c2, n2) := go r in
+                   (t1 ++ t2, c1 + c2, n1 ++ n2)
+               end) in *.
+      assert (G : forall l ts' c' n', (forall y, In y (map fst l) -> (rk y < rk k)%nat) ->
+                  go l = (ts', c', n') -> forall z' cz', In (z', cz') ts' -> unsettled z').
+      { induction l as [|[k1 v1] r IHl]; intros ts' c' n' Hl Hg z' cz' Hin'; simpl in Hg.
+        - inversion Hg; subst. destruct Hin'.
+        - destruct (expand f w (k :: exp) k1 (v1 * c)) as [[t1 c1] n1] eqn:E1.
+          destruct (go r) as [[t2 c2] n2] eqn:E2. inversion Hg; subst.
+          apply in_app_or in Hin'. destruct Hin' as [Hin'|Hin'].
+          + assert (Hk1 : (rk k1 < rk k)%nat) by (apply Hl; left; reflexivity).
+            assert (Hx' : forall x, In x (k :: exp) -> (rk k1 < rk x)%nat).
+            { intros x [Hx|Hx]; [subst; lia|specialize (Hexp x Hx); lia]. }
+            exact (IH (k :: exp) k1 (v1 * c) t1 c1 n1 ltac:(lia) Hx' E1 z' cz' Hin').
+          + exact (IHl t2 c2 n2 (fun y Hy => Hl y (or_intror Hy)) eq_refl z' cz' Hin'). }
+      destruct (go (coeffs p)) as [[ts' c'] n'] eqn:Eg. inversion H; subst.
+      apply (G (coeffs p) _ _ _ Hfc Eg z cz Hin).
+  - simpl in H. rewrite Ek in H. inversion H; subst.
+    destruct Hin as [Hin|[]]. inversion Hin; subst. exact Ek.
+Qed.
+
+Lemma subst_terms_complete : forall l ts c0 nr,
+  (forall y, In y (map fst l) -> (rk y < sub_fuel)%nat) ->
+  subst_terms w l = (ts, c0, nr) -> forall z cz, In (z, cz) ts -> unsettled z.
+Proof.
+  induction l as [|[k1 v1] r IHl]; intros ts c0 nr Hl H z cz Hin; cbn [subst_terms] in H.
+  - inversion H; subst. destruct Hin.
+  - destruct (expand sub_fuel w [] k1 v1) as [[t1 c1] n1] eqn:E1.
+    destruct (subst_terms w r) as [[t2 c2] n2] eqn:E2. inversion H; subst.
+    apply in_app_or in Hin. destruct Hin as [Hin|Hin].
+    + exact (expand_complete sub_fuel [] k1 v1 t1 c1 n1 (Hl k1 (or_introl eq_refl)) (fun x (F : In x []) => match F with end) E1 z cz Hin).
+    + exact (IHl t2 c2 n2 (fun y Hy => Hl y (or_intror Hy)) eq_refl z cz Hin).
+Qed.
+
+Lemma mk_vars_sub l c z : In z (vars (mk l c)) -> exists cz, In (z, cz) l.
+Proof.
+  unfold vars, mk, drop_zero, dict_of. simpl. intros H.
+  apply in_map_iff in H. destruct H as [[z' cz] [E H]]. simpl in E; subst.
+  apply filter_In in H. destruct H as [H _].
+  assert (G : forall l d, In (z, cz) (fold_left (fun d kv => dict_add d (fst kv) (snd kv)) l d) ->
+              In z (map fst d) \/ In z (map fst l)).
+  { clear. induction l as [|[k v] r IH]; intros d H; simpl in H.
+    - left. apply in_map_iff. exists (z, cz). split; [reflexivity|assumption].
+    - apply IH in H. destruct H as [H|H]; [|right; right; assumption].
+      rewrite dict_add_keys in H. destruct (existsb (fun y => y =? k) (map fst d)); [left; assumption|].
+      apply in_app_or in H. destruct H as [H|[H|[]]]; [left; assumption|right; left; simpl; congruence]. }
+  apply G in H. destruct H as [[]|H]. apply in_map_iff in H. destruct H as [[z' c'] [E H]]. simpl in E; subst. eauto.
+Qed.
+
+Theorem substitute_complete p :
+  (forall y, In y (vars p) -> (rk y < sub_fuel)%nat) ->
+  forall z, In z (vars (fst (substitute w p))) -> unsettled z.
+Proof.
+  intros Hp z Hz. unfold substitute in Hz.
+  destruct (subst_terms w (coeffs p)) as [[ts c0] nr] eqn:E. simpl in Hz.
+  apply mk_vars_sub in Hz. destruct Hz as [cz Hin].
+  exact (subst_terms_complete (coeffs p) ts c0 nr Hp E z cz Hin).
+Qed.
+End Complete.
